@@ -32,6 +32,7 @@ type Ctx struct {
 	specFuncs map[string]*FuncContract // spec-level name -> extern pure contract
 	lemmas    []*Lemma
 	regexes   []*RegexDecl
+	encaps    []*EncapDecl
 	axioms    []*Lemma
 	axiomSyms map[string][]string
 	specFiles []*SpecFile
@@ -234,6 +235,7 @@ func (c *Ctx) loadSpecs(extra []string) error {
 		c.immutDecls = append(c.immutDecls, sf.Immut...)
 		c.lemmas = append(c.lemmas, sf.Lemmas...)
 		c.regexes = append(c.regexes, sf.Regexes...)
+		c.encaps = append(c.encaps, sf.Encaps...)
 		c.axioms = append(c.axioms, sf.Axioms...)
 	}
 	for _, ax := range c.axioms {
@@ -533,6 +535,93 @@ func (c *Ctx) checkImmutables() []string {
 						}
 					}
 				}
+			}
+		}
+	}
+	return errs
+}
+
+// isOwner: the function is listed as an owner in some `encapsulated` declaration.
+func (c *Ctx) isOwner(label string) bool {
+	for _, ed := range c.encaps {
+		if containsStr(ed.Owners, label) {
+			return true
+		}
+	}
+	return false
+}
+
+// checkEncapsulated: every access (read, write, address) to a field declared `encapsulated` sits
+// in one of its owner functions (closures count with the function that contains them); a
+// whole-struct copy or overwrite of the type outside the owners is refused too. This is the
+// premise of `objinvariant`: nobody but the owners can disturb the representation.
+func (c *Ctx) checkEncapsulated() []string {
+	var errs []string
+	for _, ed := range c.encaps {
+		for _, d := range ed.Fields {
+			parts := strings.SplitN(d, ".", 2)
+			obj := c.tpkg.Scope().Lookup(parts[0])
+			if obj == nil {
+				continue // another package of this run
+			}
+			st, ok := obj.Type().Underlying().(*types.Struct)
+			if !ok {
+				errs = append(errs, "encapsulated "+d+": not a struct type")
+				continue
+			}
+			idx := -1
+			for i := 0; i < st.NumFields(); i++ {
+				if st.Field(i).Name() == parts[1] {
+					idx = i
+				}
+			}
+			if idx < 0 {
+				errs = append(errs, "encapsulated "+d+": no such field")
+				continue
+			}
+			named := types.Unalias(obj.Type())
+			for _, o := range ed.Owners {
+				if c.fnByLabel[o] == nil {
+					errs = append(errs, "encapsulated "+d+": owner "+o+" does not exist")
+				}
+			}
+			var visit func(f *ssa.Function, owner bool)
+			visit = func(f *ssa.Function, owner bool) {
+				for _, b := range f.Blocks {
+					for _, in := range b.Instrs {
+						hit := false
+						switch in := in.(type) {
+						case *ssa.FieldAddr:
+							if pt, ok := in.X.Type().Underlying().(*types.Pointer); ok && types.Identical(types.Unalias(pt.Elem()), named) && in.Field == idx {
+								hit = true
+							}
+						case *ssa.Field:
+							if types.Identical(types.Unalias(in.X.Type()), named) && in.Field == idx {
+								hit = true
+							}
+						case *ssa.Store:
+							if types.Identical(types.Unalias(in.Val.Type()), named) {
+								hit = true
+							}
+						case *ssa.UnOp:
+							if in.Op == token.MUL && types.Identical(types.Unalias(in.Type()), named) {
+								hit = true
+							}
+						}
+						if hit && !owner {
+							errs = append(errs, fmtf("encapsulated %s is accessed outside its owners, in %s at %s", d, f.String(), c.fset.Position(in.Pos())))
+						}
+					}
+				}
+				for _, a := range f.AnonFuncs {
+					visit(a, owner)
+				}
+			}
+			for label, f := range c.fnByLabel {
+				if f.Parent() != nil {
+					continue // closures are visited with their parent
+				}
+				visit(f, containsStr(ed.Owners, label))
 			}
 		}
 	}
